@@ -548,6 +548,20 @@ ASSUMPTIONS['A4'] = ('A4 heapless 0.7 / heapless-bytes 0.3 container decoders ac
     'String::push_str / from_str) against the contracts of Vec::{new, push, extend_from_slice, capacity}, which are assumed in Verus and validated '
     'on the real heapless code by the Kani harness dep_k_heapless_vec_contract (bounded); serde_bytes and the array impls of serde stay assumed')
 
+# the clamping generators of src/arbitrary.rs are proved by Verus for inputs of any length (unit c19_arbitrary_helpers); the level of C19 stays
+# model_checking because arbitrary_vec (closure over arbitrary_loop), arbitrary_byte_array (raw pointer cast) and the derived generators are bounded Kani only
+PROPS['C19']['verus'] = ['c19_arbitrary_helpers']
+PROPS['C19']['assumptions'] = ['AR', 'AV', 'AK', 'AX']
+ASSUMPTIONS['AR'] = ('AR contracts assumed in unit c19_arbitrary_helpers: arbitrary::Unstructured::{bytes, peek_bytes} over a ghost "bytes not yet consumed" '
+    '(read off arbitrary 1.x), usize::arbitrary = any value, core::str::{from_utf8, Utf8Error::valid_up_to, from_utf8_unchecked} over an uninterpreted '
+    'well-formedness predicate, heapless `<&str as TryInto<String<N>>>::try_into(..).unwrap()` panics exactly beyond N bytes, heapless-bytes '
+    'Bytes::from_slice fails exactly beyond N bytes')
+PROPS['C19']['explanation'] = ('Two layers. (1) Verus, input byte strings of ANY length and every capacity N: the real bodies of arbitrary_str, arbitrary_bytes and '
+    'arbitrary_key (cut from src/arbitrary.rs on every run) either report an error or yield a value within capacity whose text is well-formed UTF-8; the '
+    'unsafe from_utf8_unchecked (needs well-formed bytes) and both unwraps (need <= N bytes) are discharged as proof obligations under AR. '
+    '(2) Kani, bounded in the input length (labelled so): the same helpers plus arbitrary_vec, arbitrary_byte_array (pointer cast) and the CTAP1 request '
+    'generator on the real monomorphised code. The derived generators of the large request types are out of reach (type too large for CBMC); hence level model_checking.')
+
 
 # Harnesses that were written and calibrated but cannot be discharged in this sandbox (CBMC exceeds the 24 GB address-space limit
 # or one hour, alone on the machine); they stay in /verif/kani for reference and are run by no check.  What they were meant to add is
